@@ -19,6 +19,7 @@ import TdVerif.Model.C04Spec
 import TdVerif.Lemmas.C04
 import TdVerif.Lemmas.C04Roundtrip
 import TdVerif.Lemmas.C04Split
+import TdVerif.Lemmas.C04SplitPart
 import TdVerif.Lemmas.C04Views
 import TdVerif.Lemmas.C04Select
 import TdVerif.Lemmas.C04SelectRef
@@ -259,6 +260,72 @@ theorem split_refines (sets : List (List Path)) (inplace strict : Bool) (kids : 
     (splitT sets inplace strict (.node kids)).1 = (specSplit sets inplace strict (.node kids)).1 ∧
     (splitT sets inplace strict (.node kids)).2.erase = (specSplit sets inplace strict (.node kids)).2.erase :=
   splitT_refines sets inplace strict _ hw hs
+
+/-- `split_keys(*key_sets)` PARTITIONS the tensors — when no key is a prefix of another (`_partial`: see the known finding below for
+what happens otherwise). For every state with unique keys and every list of key sets whose keys are pairwise unrelated, whenever the
+call succeeds (in place or out of place, strict or not) it returns one tensordict per key set and the remainder, and
+* the i-th result holds a tensor / non-tensor at `q` exactly when the receiver holds it there and `q` lies at or below one of the keys
+  of the i-th key set (`OutsHold`),
+* the remainder holds it exactly when the receiver holds it there and `q` lies below none of the keys.
+Hence (`split_no_leaf_lost_partial`) every tensor of the receiver is found, with its value, in one of the results, and the results
+hold nothing else. Proved on the plain-dict replay (`specSplit_partition`: loop invariants over the keys of a set and over the sets,
+`lookup_remove_leaf`, `lookup_insert_leaf`, `filterEmpty_leaf`) and carried to the transcription by `split_refines`. -/
+theorem split_partition_partial (sets : List (List Path)) (inplace strict : Bool) (kids : Kids) (hw : WF (.node kids))
+    (hs : strict = true ∨ ∀ ks ∈ sets, ∀ p ∈ ks, throughNt p (.node kids) = false)
+    (hpw : List.Pairwise Unrel sets.flatten)
+    (rs : List Entry) (h : (splitT sets inplace strict (.node kids)).2 = .res rs) :
+    ∃ outs rem, rs = outs ++ [rem] ∧ OutsHold (.node kids) sets outs ∧
+      (∀ q nt x, LeafAt q nt x rem ↔ LeafAt q nt x (.node kids) ∧ ∀ p ∈ sets.flatten, isPrefix p q = false) := by
+  have href := (split_refines sets inplace strict kids hw hs).2
+  rw [h] at href
+  have hspec : (specSplit sets inplace strict (.node kids)).2 = .res rs := by
+    cases hh : (specSplit sets inplace strict (.node kids)).2 with
+    | err e => rw [hh] at href; simp [Out.erase] at href
+    | ok => rw [hh] at href; simp [Out.erase] at href
+    | val v => rw [hh] at href; simp [Out.erase] at href
+    | res r => rw [hh] at href; simp [Out.erase] at href; rw [href]
+  exact specSplit_partition sets inplace strict (.node kids) hw hpw rs hspec
+
+/-- …in particular nothing is lost and nothing is invented -/
+theorem split_no_leaf_lost_partial (sets : List (List Path)) (inplace strict : Bool) (kids : Kids) (hw : WF (.node kids))
+    (hs : strict = true ∨ ∀ ks ∈ sets, ∀ p ∈ ks, throughNt p (.node kids) = false)
+    (hpw : List.Pairwise Unrel sets.flatten)
+    (rs : List Entry) (h : (splitT sets inplace strict (.node kids)).2 = .res rs) (q : Path) (nt : Bool) (x : Nat) :
+    LeafAt q nt x (.node kids) ↔ ∃ r ∈ rs, LeafAt q nt x r := by
+  obtain ⟨outs, rem, rfl, hO, hR⟩ := split_partition_partial sets inplace strict kids hw hs hpw rs h
+  constructor
+  · intro hl
+    by_cases hex : ∃ p ∈ sets.flatten, isPrefix p q = true
+    · obtain ⟨p, hp, hpq⟩ := hex
+      obtain ⟨o, ho, hlo⟩ := hO.covers q nt x hl p hp hpq
+      exact ⟨o, List.mem_append_left _ ho, hlo⟩
+    · refine ⟨rem, by simp, (hR q nt x).mpr ⟨hl, fun p hp => ?_⟩⟩
+      cases hc : isPrefix p q with
+      | false => rfl
+      | true => exact absurd ⟨p, hp, hc⟩ hex
+  · rintro ⟨r, hr, hl⟩
+    rcases List.mem_append.mp hr with hm | hm
+    · exact (hO.sound r hm q nt x hl).1
+    · simp at hm; subst hm; exact ((hR q nt x).mp hl).1
+
+/-- KNOWN FINDING C04-split-related-keys-lose-leaf (found after the repo freeze, not repaired): `split_keys` with a key and a
+longer key below it — the longer one first — LOSES the entry of the longer key: it is popped and written into the output, then the
+value popped for the shorter key (what is left of the nested tensordict) overwrites the nested tensordict that holds it.
+`TensorDict({"a": {"b": 1, "c": 2}, "d": 3}).split_keys([("a","b"), "a"])` returns `[{a: {c: 2}}, {d: 3}]`: the tensor under
+`("a","b")` is in none of the results (evaluated on the transcription; the check replays it on the implementation, oracle site
+`split-partition`). The plain-dict replay `out[p] = last.pop(p)` loses it in the same way, which is why `split_refines` holds. -/
+theorem split_related_keys_lose_leaf :
+    let t := Entry.node [("a", .node [("b", .leaf false 1), ("c", .leaf false 2)]), ("d", .leaf false 3)]
+    splitT [[["a", "b"], ["a"]]] false true t
+      = (t, .res [.node [("a", .node [("c", .leaf false 2)])], .node [("d", .leaf false 3)]]) ∧
+    lookup ["a", "b"] t = some (.leaf false 1) ∧
+    lookup ["a", "b"] (.node [("a", .node [("c", .leaf false 2)])]) = none ∧
+    lookup ["a", "b"] (.node [("d", .leaf false 3)]) = none := by
+  refine ⟨?_, ?_, ?_, ?_⟩
+  · simp [splitT, splitSets, splitSet, popT, getTuple, delTuple, setTuple, dget, dset, ddel, filterEmpty, filterEmpty.go, Except.map]
+  · simp [lookup, dget]
+  · simp [lookup, dget]
+  · simp [lookup, dget]
 
 /-- `select(*keys, strict, inplace)`: for every state and every list of keys (prefixes of one another, repeated, missing,
 running through tensors) the two loops of `_select` — the scan of the first components building `source`, the grouping of
